@@ -25,6 +25,8 @@ func checkC14(r *Run) {
 	sharedTemplateRule(r, "R6")
 	r.Rule("R7", "an execution writes only into scopes of its own: a scope's outer scope is compared, read through (mutex, map lookups, the next link) or the receiver of a method that only reads it - never returned, converted, stored, passed on or written", 1)
 	outerReadOnlyRule(r, "R7")
+	r.Rule("R8", "no lock is taken twice: every function of the evaluator package gives back each sync lock it takes at every exit, and never calls - while holding a mutex - a method that locks the same mutex again (sync mutexes are not re-entrant: a second read lock deadlocks with a waiting writer)", 1)
+	nestedLocksRule(r, "R8")
 }
 
 const (
